@@ -35,11 +35,39 @@ def dump(ml, text):
     return out
 
 
+def safe_dump(ml, text):
+    """`dump` of a list that may be stale (a split of a stale list): reading it may raise - that is not the call's outcome"""
+    try:
+        return dump(ml, text)
+    except BaseException as ex:
+        return "unreadable:" + type(ex).__name__
+
+
 def cost_of(ml):
     try:
         return ml.get_internal_cost()
     except BaseException as ex:
         return "exc:" + type(ex).__name__
+
+
+def reads_of(m):
+    out = []
+    for f in (m.begin, m.end):
+        try:
+            out.append(str(f()))
+        except BaseException:
+            out.append("!")
+    try:
+        out.append(m.raw_surface().encode("utf-8").hex())
+    except BaseException:
+        out.append("!")
+    return ":".join(out)
+
+
+def list_reads(ml):
+    """what Python reads from EVERY morpheme of a list (possibly stale): begin:end:surface, `!` = an exception"""
+    n = len(ml)
+    return "%d[%s]" % (n, ",".join(reads_of(ml[i]) for i in range(n)))
 
 
 dic = Dictionary(config_path=script["config"], resource_dir=script["resource_dir"])
@@ -57,13 +85,13 @@ for i, c in enumerate(script["calls"]):
                 kw["out"] = lists[c["out"]][0]
             ml = tok.tokenize(c["text"], **kw)
             if c.get("out") is not None:
-                lists[c["out"]] = (ml, c["text"])
+                lists[c["out"]] = (ml, c["text"]); ret = c["out"]
             else:
-                lists.append((ml, c["text"]))
+                lists.append((ml, c["text"])); ret = len(lists) - 1
             if c.get("keep") and len(ml) > 0:
                 kept.append(ml[len(ml) - 1])
             res = {"i": i, "ok": True, "mode": mode_name(tok.mode), "ms": dump(ml, c["text"]), "n": len(ml), "size": ml.size(),
-                   "cost": cost_of(ml), "bool": bool(ml), "iter": len(list(iter(ml)))}
+                   "cost": cost_of(ml), "bool": bool(ml), "iter": len(list(iter(ml))), "ret": ret}
         elif op == "split":
             ml, text = lists[c["list"]]
             m = ml[c["index"]]
@@ -72,10 +100,10 @@ for i, c in enumerate(script["calls"]):
                 kw["out"] = lists[c["out"]][0]
             sub = m.split(MODES[c["mode"]], **kw)
             if c.get("out") is not None:
-                lists[c["out"]] = (sub, text)
+                lists[c["out"]] = (sub, text); ret = c["out"]
             else:
-                lists.append((sub, text))
-            res = {"i": i, "ok": True, "mode": mode_name(tok.mode), "ms": dump(sub, text), "n": len(sub), "cost": cost_of(sub)}
+                lists.append((sub, text)); ret = len(lists) - 1
+            res = {"i": i, "ok": True, "mode": mode_name(tok.mode), "ms": safe_dump(sub, text), "n": len(sub), "cost": cost_of(sub), "ret": ret}
         elif op == "index":
             # MorphemeList.__getitem__ with an int (possibly negative / out of range), a slice, a str, an int beyond isize
             ml, text = lists[c["list"]]
@@ -109,7 +137,7 @@ for i, c in enumerate(script["calls"]):
                     lists[c["out"]] = (sub, text)
                 else:
                     lists.append((sub, text))
-                res = {"i": i, "ok": True, "mode": mode_name(tok.mode), "ms": dump(sub, text), "n": len(sub), "same": (outl is None) or (sub is outl)}
+                res = {"i": i, "ok": True, "mode": mode_name(tok.mode), "ms": dump(sub, text), "n": len(sub), "same": (outl is None) or (sub is outl), "ret": len(lists) - 1}
             except BaseException as ex:
                 res = {"i": i, "ok": True, "mode": mode_name(tok.mode), "exc": type(ex).__name__, "before": before, "after": len(outl) if outl is not None else None}
         elif op == "create":
@@ -122,13 +150,19 @@ for i, c in enumerate(script["calls"]):
                 t2 = dic.create(mode, **kw)
                 ml = t2.tokenize(c["text"])
                 lists.append((ml, c["text"]))
-                res = {"i": i, "ok": True, "mode": mode_name(tok.mode), "ms": dump(ml, c["text"]), "n": len(ml)}
+                res = {"i": i, "ok": True, "mode": mode_name(tok.mode), "ms": dump(ml, c["text"]), "n": len(ml), "ret": len(lists) - 1}
             except BaseException as ex:
                 res = {"i": i, "ok": True, "mode": mode_name(tok.mode), "exc": type(ex).__name__}
         elif op == "lookup":
-            ml = dic.lookup(c["query"])
-            lists.append((ml, c["query"]))
-            res = {"i": i, "ok": True, "mode": mode_name(tok.mode), "ms": dump(ml, c["query"]), "n": len(ml)}
+            kw = {}
+            if c.get("out") is not None:
+                kw["out"] = lists[c["out"]][0]
+            ml = dic.lookup(c["query"], **kw)
+            if c.get("out") is not None:
+                lists[c["out"]] = (ml, c["query"]); ret = c["out"]
+            else:
+                lists.append((ml, c["query"])); ret = len(lists) - 1
+            res = {"i": i, "ok": True, "mode": mode_name(tok.mode), "ms": dump(ml, c["query"]), "n": len(ml), "ret": ret}
         elif op == "stale":
             vals = []
             for m in kept:
@@ -141,6 +175,12 @@ for i, c in enumerate(script["calls"]):
             res = {"i": i, "err": "bad-op"}
     except BaseException as ex:
         res = {"i": i, "err": type(ex).__name__, "msg": str(ex)[:200], "mode": mode_name(tok.mode)}
+    # after EVERY call: what Python reads from every list it holds (stale ones included) and from the kept morphemes
+    try:
+        res["all"] = [list_reads(l[0]) for l in lists]
+        res["kept"] = [reads_of(m) for m in kept]
+    except BaseException as ex:
+        res["all_exc"] = type(ex).__name__
     sys.stdout.write(json.dumps(res, ensure_ascii=False) + "\n")
     sys.stdout.flush()
 sys.stdout.write(json.dumps({"done": True}) + "\n")
